@@ -48,4 +48,4 @@ if res.get('confirmed'):
     meta['demo_file'] = demos[0]
     json.dump(meta, open(os.path.join(dst, 'meta.json'), 'w'), indent=1)
 else:
-    json.dump(res, open('/var/tmp/seeded-inbox/%s.failed.json' % outid, 'w'), indent=1)
+    json.dump(res, open('/var/tmp/%s.failed.json' % outid, 'w'), indent=1)
